@@ -238,6 +238,40 @@ theorem pullOp_WR (src dst : Site) (r : Room) (s1 : Site) (acts : List Act)
 theorem sub_guard (s : Site) (si : Nat) (sub : Sub) : refdelGuard s (sub.toOp si) = true := by
   cases sub <;> rfl
 
+theorem subApply_good (d : Defects) (tick : Nat) (day : Day) (used : List Nat) (rooms : List (Room × Nat))
+    (si : Nat) (s : Site) (sub : Sub) (s1 : Site) (acts : List Act)
+    (h : subApply d tick day used rooms si s sub = some (s1, acts)) : ∀ a, a ∈ acts → GoodW a := by
+  have local_case : ∀ (op : Op), refdelGuard s op = true →
+      (localOp d tick day used rooms si s op).map (fun x => (x.1, x.2.filter fun a => a ≠ Act.pass)) = some (s1, acts) →
+      ∀ a, a ∈ acts → GoodW a := by
+    intro op hgd hl a ha
+    cases hlo : localOp d tick day used rooms si s op with
+    | none => simp [hlo] at hl
+    | some x =>
+      simp only [hlo, Option.map_some, Option.some.injEq, Prod.mk.injEq] at hl
+      obtain ⟨_, rfl⟩ := hl
+      obtain ⟨l, hx, hg⟩ := localOp_shape d tick day used rooms si s op x.1 x.2 (Or.inr hgd) hlo
+      rw [hx] at ha
+      obtain ⟨hm, hne⟩ := List.mem_filter.mp ha
+      rcases List.mem_append.mp hm with h' | h'
+      · exact hg a h'
+      · rcases List.mem_singleton.mp h' with rfl
+        simp at hne
+  cases sub with
+  | stream rows =>
+    simp only [subApply] at h
+    split at h
+    · cases h
+    · simp only [Option.some.injEq, Prod.mk.injEq] at h
+      obtain ⟨_, rfl⟩ := h
+      intro a ha
+      obtain ⟨r, _, rfl⟩ := List.mem_map.mp ha
+      intro c hc; exact hc
+  | new n r e => exact local_case _ rfl h
+  | upd n => exact local_case _ rfl h
+  | del n => exact local_case _ rfl h
+  | roomadd r => exact local_case _ rfl h
+
 theorem mixApply_good (d : Defects) (tick : Nat) (day : Day) (used : List Nat) (rooms : List (Room × Nat))
     (si : Nat) (subs : List Sub) : ∀ (s : Site), ∀ a, a ∈ (mixApply d tick day used rooms si s subs).2 → GoodW a := by
   induction subs with
@@ -248,14 +282,43 @@ theorem mixApply_good (d : Defects) (tick : Nat) (day : Day) (used : List Nat) (
     split at ha
     · exact ih s a ha
     · rename_i s1 acts hl
-      obtain ⟨l, rfl, hg⟩ := localOp_shape d tick day used rooms si s _ s1 acts (Or.inr (sub_guard s si sub)) hl
       rcases List.mem_append.mp ha with h | h
-      · obtain ⟨hm, hne⟩ := List.mem_filter.mp h
-        rcases List.mem_append.mp hm with h' | h'
-        · exact hg a h'
-        · rcases List.mem_singleton.mp h' with rfl
-          simp at hne
+      · exact subApply_good d tick day used rooms si s sub s1 acts hl a h
       · exact ih s1 a h
+
+theorem pullOp_good (src dst : Site) (r : Room) (x : Site × List Act) (h : pullOp src dst r = some x) :
+    ∀ a, a ∈ x.2 → GoodW a ∨ a = Act.pass := by
+  unfold pullOp at h
+  split at h
+  · cases h
+  · rename_i rd _
+    simp only [Option.some.injEq] at h
+    subst h
+    have hi := foldl_pullEntry_inv src (roomLog r src.log) _ (pullStart_inv dst r rd)
+    intro a ha
+    unfold pullFinish at ha
+    dsimp only at ha
+    split at ha
+    · rcases List.mem_append.mp ha with h' | h'
+      · exact Or.inl (hi.1 a h')
+      · exact Or.inr (List.mem_singleton.mp h')
+    · exact Or.inl (hi.1 a ha)
+
+theorem mixPull_good (st : State) (si : Nat) (s : Site) (pull : Option (Nat × Room)) :
+    ∀ a, a ∈ ((mixPull st si s pull).getD (s, [])).2 → GoodW a ∨ a = Act.pass := by
+  intro a ha
+  cases hp : mixPull st si s pull with
+  | none => simp [hp] at ha
+  | some x =>
+    simp only [hp, Option.getD_some] at ha
+    unfold mixPull at hp
+    split at hp
+    · cases hp
+    · split at hp
+      · cases hp
+      · split at hp
+        · cases hp
+        · exact pullOp_good _ _ _ x hp a ha
 
 /-! #### every operation -/
 
@@ -314,20 +377,26 @@ theorem plan_WR (st : State) (op : Op) (si : Nat) (s1 : Site) (acts : List Act)
           obtain ⟨_, _, rfl⟩ := h
           exact pullOp_WR src dst r x.1 x.2 hp
     · cases h
-  | mix s' subs =>
+  | mix s' subs pull =>
     simp only [plan] at h
     split at h
     · cases h
     · split at h
       · cases h
-      · rename_i hne
+      · rename_i s hs hne
         simp only [Option.some.injEq, Prod.mk.injEq] at h
         obtain ⟨_, _, rfl⟩ := h
         apply WR_good_passes
-        · cases hsel : mixSelect st.d st.tick st.day st.usedRows st.rooms s' _ [] subs with
+        · cases hsel : mixSel st s' s subs pull with
           | nil => simp [hsel] at hne
-          | cons a b => simp
-        · exact mixApply_good _ _ _ _ _ _ _ _
+          | cons a b => simp only [List.length_cons]; omega
+        · intro a ha
+          rcases List.mem_append.mp ha with h' | h'
+          · obtain ⟨hm, hne'⟩ := List.mem_filter.mp h'
+            rcases mixPull_good st s' s pull a hm with hg' | hg'
+            · exact hg'
+            · subst hg'; simp at hne'
+          · exact mixApply_good _ _ _ _ _ _ _ _ a h'
   | room s' r =>
     simp only [plan, siteOf] at h
     split at h
